@@ -16,7 +16,7 @@ class Gen:
         self.nextv = 1
         self.tick = 10
         self.profile = profile
-        self.ranges = profile in ("ranges", "copy")
+        self.ranges = profile in ("ranges", "copy", "c19")
         self.steps = []
         if spare:
             for d in range(self.conf.nd):
@@ -100,6 +100,75 @@ class Gen:
         os.utime(dst, ns=(st.st_mtime_ns, st.st_mtime_ns))
         return "copy%s %d/%s -> %d/%s" % (" (decoy)" if decoy else "", d, n, e, n)
 
+    def op_move(self):
+        """move a file to another disk or into a sub-directory keeping name and time stamp"""
+        d = self.rng.randrange(self.conf.nd)
+        fl = [f for f in self.files_deep(d) if os.path.basename(f) != "zz"]
+        if not fl:
+            return None
+        n = self.rng.choice(fl)
+        src = self.a.path(d, n)
+        st = os.lstat(src)
+        if self.rng.random() < 0.5 and self.conf.nd > 1:
+            e = self.rng.choice([x for x in range(self.conf.nd) if x != d]); m = n
+        else:
+            e = d; m = ("sub/" + os.path.basename(n)) if "/" not in n else os.path.basename(n)
+        dst = self.a.path(e, m)
+        if os.path.lexists(dst):
+            return None
+        os.makedirs(os.path.dirname(dst), exist_ok=True)
+        with open(src, "rb") as f:
+            data = f.read()
+        with open(dst, "wb") as f:
+            f.write(data)
+        os.utime(dst, ns=(st.st_mtime_ns, st.st_mtime_ns))
+        os.remove(src)
+        return "move %d/%s -> %d/%s" % (d, n, e, m)
+
+    def op_nsec(self):
+        """give a file a non-zero sub-second time stamp (copy detection then compares the bare name)"""
+        d = self.rng.randrange(self.conf.nd)
+        fl = [f for f in self.files_deep(d) if os.path.basename(f) != "zz"]
+        if not fl:
+            return None
+        n = self.rng.choice(fl)
+        sec = self.stamp()
+        self.a.set_mtime(d, n, sec, self.rng.choice([1, 500000000, 999999999]))
+        return "touch %d/%s with sub-second stamp" % (d, n)
+
+    def files_deep(self, d):
+        base = self.a.ddir(d)
+        out = []
+        for dp, dn, fn in os.walk(base):
+            for f in fn:
+                rel = os.path.relpath(os.path.join(dp, f), base)
+                if not rel.endswith(".unrecoverable"):
+                    out.append(rel)
+        return sorted(out)
+
+    def make_import(self, kind):
+        """an import directory with true copies and decoys (same size and stamp, other content) of recorded files"""
+        st = self.recorded()
+        import tempfile
+        imp = tempfile.mkdtemp(prefix="imp-", dir=os.path.dirname(self.a.root))      # outside the array root
+        k = 0
+        for d in self.rec.D:
+            for n, f in st["cf"][d].items():
+                if not f["bl"] or self.rng.random() < 0.3:
+                    continue
+                vals = [self._unval(b["h"]) if b["st"] != "CHG" and b["h"][:1] in "vs" else None for b in f["bl"]]
+                if any(v is None for v in vals):
+                    continue
+                data = b"".join(self.a.vbytes(v) for v in vals)
+                if self.rng.random() < 0.35:
+                    data = bytes([data[0] ^ 0x33]) + data[1:]       # decoy
+                p = os.path.join(imp, "i%d" % k); k += 1
+                with open(p, "wb") as fh:
+                    fh.write(data)
+                t = (arr.BASE_TIME + f["mt"][0]) * 10**9 + max(f["mt"][1], 0)
+                os.utime(p, ns=(t, t))
+        return imp
+
     def _range(self):
         st = self.recorded()
         bm = max(len(st["info"]), 1)
@@ -181,6 +250,11 @@ class Gen:
             flags.append("-E")
         if self.ranges and self.rng.random() < 0.25:
             flags += self._range()
+        if self.profile == "c19":
+            if self.rng.random() < 0.3 and not mid:
+                flags.append("-h")
+            if "-h" not in flags and "-F" not in flags and self.rng.random() < 0.15:      # -N excludes -h and -F
+                flags.append("--force-nocopy")
         self.a.clock += self.rng.choice([0, 8, 100, 100000])
         r, out = self.rec.sync(*flags, midrun=mid)
         return "sync %s %s -> %s" % (flags, mid, out["exit"])
@@ -195,7 +269,13 @@ class Gen:
             return "check %s%s -> %s" % (fl, " short reads" if rules else "", self.rec.check(*fl, rules=rules)[1]["exit"])
         if name == "fix":
             fl = self._range() if (self.ranges and self.rng.random() < 0.25) else []
-            res = "fix %s -> %s" % (fl, self.rec.fix(*fl)[1]["exit"])
+            kw = {}
+            if self.profile == "c19" and self.rng.random() < 0.5:
+                kind = self.rng.choice(["imp_stamp", "imp_content"])
+                kw[kind] = self.make_import(kind)
+            res = "fix %s %s -> %s" % (fl, list(kw), self.rec.fix(*fl, **kw)[1]["exit"])
+            for p in kw.values():
+                shutil.rmtree(p, ignore_errors=True)
             # the user removes the .unrecoverable leftovers (a second fix would rename them back and then stop
             # with "file ... disappeared": search.c:83, recorded as observation O1 in DESIGN.md)
             gone = []
@@ -224,6 +304,8 @@ class Gen:
                    ("lose_parity", 1), ("sync", 26), ("check", 8), ("fix", 14), ("scrub", 4), ("diff", 2)],
         "copy": [("add", 14), ("copy", 16), ("touch", 3), ("delete", 8), ("corrupt", 3), ("lose_disk", 2),
                  ("sync", 28), ("check", 6), ("fix", 8), ("diff", 4)],
+        "c19": [("add", 12), ("copy", 16), ("move", 10), ("nsec", 6), ("touch", 2), ("delete", 6), ("corrupt", 3), ("lose_disk", 3),
+                ("sync", 26), ("check", 5), ("fix", 12), ("diff", 2)],
         "detect": [("add", 8), ("delete", 3), ("corrupt", 14), ("corrupt_burst", 10), ("corrupt_parity", 14), ("sync", 14),
                    ("check", 18), ("scrub", 14), ("fix", 6)],
         "damage": [("add", 10), ("delete", 6), ("corrupt", 14), ("corrupt_parity", 8), ("lose_disk", 6), ("lose_parity", 5),
